@@ -19,6 +19,14 @@ def rec_prog(d):
     return f"fn r(n: int) -> int {{ if n == 0 {{ 0 }} else {{ 1 + r(n - 1) }} }}\nfn main() {{ println(r({d})); }}\n"
 
 
+LONG_NAME = "walk_the_whole_configuration_tree_and_collect_every_leaf_value_v2"
+
+
+def rec_long_prog(d):
+    """the same recursion in a function with a very long name (the stack trace of the fatal interrupt lists it)"""
+    return f"fn {LONG_NAME}(n: int) -> int {{ if n == 0 {{ 0 }} else {{ 1 + {LONG_NAME}(n - 1) }} }}\nfn main() {{ println({LONG_NAME}({d})); }}\n"
+
+
 def rec_val_prog(d):
     """the same recursion, every call of the cycle through a function VALUE (Call_Val instead of Call_Imm)"""
     return f"fn r(n: int) -> int {{ if n == 0 {{ 0 }} else {{ let f = r; 1 + f(n - 1) }} }}\nfn main() {{ let g = r; println(g({d})); }}\n"
@@ -85,6 +93,8 @@ def cases(ctx):
             if d > 0:
                 out.append(("rec", (calls, 500, 100000), rec_prog(d), {"calls_used": d, "limit": calls}))
                 out.append(("rec", (calls, 500, 100000), rec_val_prog(d), {"calls_used": d, "limit": calls, "via": "function value"}))
+                if d in (calls - 1, calls + 2):
+                    out.append(("rec", (calls, 500, 100000), rec_long_prog(d), {"calls_used": d, "limit": calls, "via": "long function name"}))
     for stack in ([30, 120] + ([8, 500] if thorough else [])):
         for n in sorted(set([1, stack // 2, stack - 3, stack - 1, stack, stack + 1, stack + 2 * QUANTUM + 5, 3 * stack + 2 * QUANTUM])):
             if n > 0:
